@@ -364,6 +364,7 @@ pub const BYZ_KINDS: &[&str] = &[
     "restart-crc-whole",
     "restart-crc-tail",
     "invalid-esc",
+    "mangled-start",
     "canonical",
 ];
 
@@ -410,7 +411,9 @@ pub fn gen_byzantine_frame(rng: &mut Rng) -> (usize, Vec<u8>) {
             }
             data.extend_from_slice(&[0; 8]);
             v.extend_from_slice(&data);
-            seal_end(&mut v, rng.range(4, 8) as u8);
+            // also pad counts near the 8-bit limits (arithmetic on the untrusted pad byte)
+            let pad = if rng.chance(1, 2) { rng.range(4, 8) as u8 } else { *rng.pick(&[0x0fu8, 0x10, 0x7f, 0x80, 0xef, 0xf0, 0xf7, 0xfc, 0xff]) };
+            seal_end(&mut v, pad);
         }
         "pad-gt-zero-run" => {
             while (data.len() + 1) % 4 != 0 {
@@ -485,6 +488,25 @@ pub fn gen_byzantine_frame(rng: &mut Rng) -> (usize, Vec<u8>) {
                 v.truncate(tail_from);
                 v.extend_from_slice(&t);
             }
+        }
+        "mangled-start" => {
+            // body, end sequence and CRC of a genuine frame behind a start sequence that is not one
+            let f = refenc(&data);
+            let a = rng.range(1, 3);
+            let b = rng.range(1, 4);
+            let start: Vec<u8> = match rng.below(8) {
+                0 => [vec![0x1b; 4], vec![0x01; a], vec![0x1b; b], vec![0x01; 4]].concat(),
+                1 => [vec![0x1b; 4], vec![0x01; a], vec![0x1b; b], vec![0x01; 4 - a]].concat(),
+                2 => [vec![0x1b; rng.range(1, 3)], vec![0x01; 4]].concat(),
+                3 => [vec![0x1b; 4], vec![0x01; 3]].concat(),
+                4 => [vec![0x1b; 4], vec![0x01; 3], vec![rng.byte() | 2], vec![0x01]].concat(),
+                5 => [vec![0x1b; 2], vec![0x01; 1], vec![0x1b; 2], vec![0x01; 4]].concat(),
+                6 => [vec![0x1b; 4], vec![0x01; 2], vec![0x1b; 4], vec![0x01; 2]].concat(),
+                _ => [vec![0x01; a], vec![0x1b; 4], vec![0x01; 3], vec![0x1b; 1], vec![0x01; 1]].concat(),
+            };
+            let mut out = start;
+            out.extend_from_slice(&f[8..]);
+            return (k, out);
         }
         "invalid-esc" => {
             while data.len() % 4 != 0 {
